@@ -147,7 +147,10 @@ def attr_term(a):
 def klass_term(k):
     exts = clist([f"(mk_extension {cstr(e['tag'])} {cstr(e['qname'])} {cbool(e['native'])})" for e in k["extensions"]],
                  str, "extension")
-    inner = clist([f"({cstr(i['qname'])}, {clist([attr_term(a) for a in i['attrs']], str, 'attr')})" for i in k["inner"]],
+    # enumeration members: codegen's Attr rewrites names without an alphanumeric character ("." -> "FULL STOP");
+    # member naming is C07's subject, the model keeps the value as name, so members are compared by value
+    inner = clist([f"({cstr(i['qname'])}, {clist([attr_term(dict(a, name=a['default'])) for a in i['attrs']], str, 'attr')})"
+                   for i in k["inner"]],
                   str, "(str * list attr)")
     return (f"(mk_klass {cstr(k['qname'])} {cstr(k['tag'])} {cbool(k['mixed'])} {ns_map_term(k['ns_map'])} {exts} "
             f"{clist([attr_term(a) for a in k['attrs']], str, 'attr')} {inner})")
